@@ -15,7 +15,7 @@ MANIFEST = dict(
               "replay into the implementation through gated disposable doubles",
     design="5/C08")
 INVS = ["TypeOK", "Restored", "BodyExcIdentity", "EnterOnce", "ExitOnce", "ExitArg", "EnterFailureNoBody",
-        "SurfaceCleanup", "CancelNotLost"]
+        "SurfaceCleanup", "CancelNotLost", "CancelAbortsMembers", "NoWaitAfterFailure"]
 ALL = ["ok", "fail", "susp"]
 
 
